@@ -197,6 +197,8 @@ func mutexOp(kind string, acquire bool) builtinModel {
 			st.locks = append(st.locks, kind+" "+name)
 			x.havocGuarded(st, site)
 			x.lockInvariant(st, fr, site, true)
+			// at(<lock event>, e) speaks about the state the acquirer finds
+			st.trace[len(st.trace)-1].Heap = st.heapCopy()
 		} else {
 			if kind == "unlock" {
 				x.lockInvariant(st, fr, site, false)
